@@ -434,7 +434,9 @@ func checkC19(prop, tier string) int {
 	}
 	pool := NewPool()
 	pool.JobTimeout = 10 * time.Minute
+	pool.Deadline = time.Now().Add(g4Deadline(tier))
 	results := pool.Run(jobs)
+	skippedByDeadline := countSkipped(results)
 	var tot c19Res
 	infra := 0
 	var viols []Violation
@@ -481,7 +483,8 @@ func checkC19(prop, tier string) int {
 			"distinct_nontrivial":           len(sigma)*len(sigma) - 1,
 			"rule":                          "every (key, value) pair of the byte-string alphabet (empty, 0x00, 0xff, store magic look-alikes with plausible and absurd length fields, 4095/4096/4097-byte strings) as a single-entry batch and as the middle entry of a three-entry batch, built plain / Alloc* / mixed / Alloc* from one arena allocation / all Alloc calls before the first Alloc* call, under DeferredSort+CachePersisted off/on, through 8 fixed pipeline stages (memory, merger, persist, reopen, appended batch, reopen, full compaction, reopen) with a model comparison after each; oversize entries at exactly 2^24 / 2^28 bytes are rejected; eight keys of very uneven length with a key index that ends early; a burst of three batches before one merger cycle (first one large, descending insertion order, with a child collection) under DeferredSort / CachePersisted on and off; states = pipeline stages compared; distinct_nontrivial = distinct non-trivial (key,value) pairs",
 			"samples":                       samples,
-			"exhaustive":                    infra == 0,
+			"exhaustive":                    infra == 0 && skippedByDeadline == 0,
+			"cap_hit":                       fmt.Sprintf("%d of %d jobs skipped by the deadline of %v", skippedByDeadline, len(jobs), g4Deadline(tier)),
 			"alphabet_size":                 len(sigma),
 			"pipeline_runs":                 tot.Runs,
 			"infrastructure_errors":         infra,
